@@ -4,6 +4,8 @@ import VelaVerif.Spec.TfliteFile
 import VelaVerif.Lemmas.TfliteWriter
 import VelaVerif.Lemmas.TfliteReader
 import VelaVerif.Model.TfliteDemo
+import VelaVerif.Lemmas.TfliteConforms
+import VelaVerif.Lemmas.TfliteConformsMeta
 /-!
 # C11 / C14 — the TFLite writer and reader (Model/TfliteWriter.lean, Model/TfliteReader.lean)
 
@@ -574,6 +576,75 @@ example : (metadataToWrite { Demo.demo with metadata := [{ nameIsBytes := false,
 /-- the ranges themselves, for the record -/
 example : Spec.fullRange true 16 = (-32768, 32767) ∧ Spec.fullRange true 8 = (-128, 127) ∧ Spec.fullRange false 8 = (0, 255) ∧
     Spec.fullRange true 32 = (-2147483648, 2147483647) := by decide
+
+/-! ## the executable Spec accepts every output of the writer model
+
+`Spec.conforms d t` is the checker the harness applies to the REAL files (`wspec`). It shares only the graph meaning with the model
+(`prepSub`, `clearVirtual`, `removeVirtual`); every layout decision is checked relationally on the file. `conforms_write` ties it to
+the model for all inputs: whatever the writer model produces, the checker accepts — so a `wspec` rejection of a real file is a
+disagreement between the real writer and the model's *properties* (`written_tensors`, `written_operators`, …), never an artefact of
+the checker. The domain (`Spec.conformsDomainB`, executable) has three clauses, each with a witness below that it is needed:
+the checker is stricter than the writer there. -/
+
+/-- **conforms_write.** For every description `d` in the domain — at least one subgraph is written; every subgraph output (virtual
+outputs removed, original positions expanded) is a written tensor; a Placeholder has no operands or intermediates of its own — the
+Spec's checker finds no problem in the file `writeWith d enum` produces (any iteration order `enum` of the code set). -/
+theorem conforms_writeWith (d : Desc) (enum : List Code) (m : ModelT) (hd : Spec.conformsDomainB d = true)
+    (h : writeWith d enum = .ok m) : Spec.conforms d m = [] := by
+  have hne : m.subgraphs ≠ [] := by
+    obtain ⟨subs, h1, hl, _⟩ := Spec.write_sgFacts d enum m h
+    obtain ⟨hl0, _⟩ := mapM_ok _ _ _ h1
+    unfold Spec.conformsDomainB at hd
+    simp only [Bool.and_eq_true, Bool.not_eq_true', List.isEmpty_eq_false_iff] at hd
+    intro hn
+    rw [hn] at hl
+    have : subs = [] := List.length_eq_zero_iff.mp hl.symm
+    rw [this] at hl0
+    exact hd.1 (List.length_eq_zero_iff.mp hl0.symm)
+  exact Spec.conforms_writeWith d enum m h hd (Spec.wellFormed_write d enum m h hne)
+    (fun subs hs rels hr => Spec.metadataProblems_write d enum m h subs hs rels hr)
+
+theorem conforms_write (d : Desc) (m : ModelT) (hd : Spec.conformsDomainB d = true) (h : write d = .ok m) :
+    Spec.conforms d m = [] := by
+  cases hs : (subgraphsToWrite d).mapM (prepSub d.tensors) with
+  | error e => rw [(write_err d e hs []).1] at h; exact absurd h (by simp)
+  | ok subs =>
+    rw [write_eq d subs hs] at h
+    exact conforms_writeWith d _ m hd h
+
+/-- not vacuous: the demo graph (convolution with restored weights, two custom operators, unused input, repeated output entry,
+arena and scratch tensors, an NPU subgraph that is not written) is in the domain, the writer accepts it, and the checker evaluates
+to "no problem" on the written file -/
+example : Spec.conformsDomainB demo = true ∧ (write demo).toOption.isSome = true ∧
+    (write demo).toOption.map (Spec.conforms demo) = some [] := by decide +kernel
+
+/-- … and the checker is not trivially empty: the same file does not conform to the graph with the two subgraph inputs swapped -/
+example : ((write demo).toOption.map fun m =>
+    (Spec.conforms { demo with subgraphs := [{ Demo.sg with originalInputs := [5, 0] }, Demo.npu] } m).isEmpty) = some false := by
+  decide +kernel
+
+/-- **conforms_write_witness (no Cpu subgraph).** Without a written subgraph the writer puts the `vela_version` buffer at index 0;
+the Spec (and TFLite: buffer 0 is the empty sentinel) rejects — the first domain clause is needed. In Vela the CPU subgraph always
+exists (the network's entry subgraph). -/
+theorem conforms_write_no_cpu_witness :
+    let d : Desc := { tensors := [], subgraphs := [Demo.npu], metadata := [], version := [49] }
+    ((write d).toOption.map fun m => (Spec.conforms d m).map (·.kind)) = some ["buffer-0-not-empty"] := by decide +kernel
+
+/-- **conforms_write_witness (dropped output).** A subgraph output that is neither an original input nor an operand of a written
+operator or of a Placeholder — here the result of a `Const` nobody reads — is silently left out of the file's output list
+(`if tens in self.tensor_map_sg`); the Spec reports the missing entry — the second domain clause is needed. -/
+theorem conforms_write_dropped_output_witness :
+    let d : Desc := { demo with subgraphs := [{ Demo.sg with outputTensors := [7, 2], originalOutputPositions := none }, Demo.npu] }
+    ((write d).toOption.map fun m => ((m.subgraphs.map (·.outputs)), (Spec.conforms d m).map (·.kind))) =
+      some ([some [2]], ["operand-count"]) := by decide +kernel
+
+/-- **conforms_write_witness (Placeholder with an operand).** The writer adds the operands of Placeholders to the tensor table; one
+that nothing else refers to is in the file without any operator or interface list naming it; the Spec explains unreferenced tensors
+only as Placeholder *results* — the third domain clause is needed (Vela's Placeholders have no operands). -/
+theorem conforms_write_placeholder_operand_witness :
+    let d : Desc := { demo with subgraphs := [{ Demo.sg with ops := [{ Demo.startup "Placeholder" 0 with inputs := [some 2] }] ++ Demo.sg.ops.drop 1 }, Demo.npu] }
+    ((write d).toOption.map fun m => (Spec.conformsDomainB d, (Spec.conforms d m).map (·.kind))) =
+      some (false, ["unexplained-tensor"]) := by decide +kernel
 
 /-! ## non-vacuity: a concrete graph in the writer's domain (Model/TfliteDemo.lean) -/
 
